@@ -6,6 +6,7 @@ CONSTANTS
   QueueMax = 2
   MaxTasks = 3
   MaxOps = 7
+  RetryExact = TRUE
   SyncTask = TRUE
   Dev = {"stale-link"}
 INIT Init
